@@ -644,6 +644,20 @@ func (e *Env) applyDecorationsSinks() {
 				}
 				return true
 			})
+			// joined when at most one line break lies between: `counter <= 1` (or `< 2`)
+			exact := false
+			ast.Inspect(loop.Body, func(n ast.Node) bool {
+				if be, ok := n.(*ast.BinaryExpr); ok {
+					if id, ok := ast.Unparen(be.X).(*ast.Ident); ok && info.Uses[id] == counter {
+						if k, ok := constInt(info, be.Y); ok && ((be.Op == token.LEQ && k == 1) || (be.Op == token.LSS && k == 2)) {
+							exact = true
+						}
+					}
+				}
+				return true
+			})
+			e.Run.Check("R-SINK", "applyDecorations: a comment joins the group before it when at most one line break lies between them", pos, exact,
+				"the join test on "+counter.Name()+" is not `<= 1`: with `< 1` only comments on one line share a group (a block of // lines is split again), with a larger bound comments separated by an empty line are merged into one group and go/printer drops the empty line")
 			e.Run.Check("R-SINK", "applyDecorations: the line breaks since the last comment are counted from zero after every comment", pos, reset && inc,
 				fmt.Sprintf("the counter %s that decides whether a comment joins the group before it is reset to 0 in the loop: %v, incremented: %v — without the reset the third comment of a run starts a group of its own", counter.Name(), reset, inc))
 		}
